@@ -24,6 +24,7 @@ tables = `.` | rows joined by `;` (see `Tables`).
 import CaddyModel.C20.Model
 import CaddyModel.C20.FEnc
 import CaddyModel.C20.Plumb
+import CaddyModel.C20.LogAppend
 import CaddyModel.C10.Glue
 
 namespace CaddyModel.C20
@@ -407,7 +408,30 @@ def parseSites (s : String) : Option (List Srv) :=
 
 def showB (b : Bool) : String := if b then "1" else "0"
 
+def parseVars (s : String) : Option Vars :=
+  if s == "." then some [] else do
+    let rows ← (s.splitOn ";").mapM fun e =>
+      match e.splitOn ":" with
+      | [k, "s", v] => do pure ((← Hex.decode k), some (← Hex.decode v))
+      | [k, "o"] => do pure ((← Hex.decode k), none)
+      | _ => none
+    if strictlySorted (rows.map (·.1)) then some rows else none
+
+def showLaVal : LaVal → String
+  | .s v => "ok s " ++ Hex.encode v
+  | .nil => "ok nil"
+  | .other => "ok other"
+
 def handle : List String → String
+  | ["la", v, vars, h, rh] =>
+    match Hex.decode v, parseVars vars, parseHdr h, parseHdr rh with
+    | some v, some vars, some h, some rh => showLaVal (logAppendValue (str "GET") (str "example.com") vars h rh v)
+    | _, _, _, _ => "bad-op"
+  | ["lax", k, h, rh] =>
+    -- implementation-only taint run over replacer keys the model does not evaluate
+    match Hex.decode k, parseHdr h, parseHdr rh with
+    | some k, some _, some _ => if k.any isBrace then "bad-op" else "ok"
+    | _, _, _ => "bad-op"
   | ["hdr", c, h] =>
     match parseBool c, parseHdr h with
     | some c, some h => "ok " ++ showHdr (loggableHeader h c)
